@@ -450,10 +450,14 @@ def apply_edit(sv, e):
             p["con"] = {1: False, 2: i == 0, 3: i < 2, 4: True, 5: "z", 6: ("xy" if i < 2 else False)}[m]
     elif k == "Isolate":
         a = s.pts[0]
-        qe, qn = {1: (1, 1), 2: (1, 1), 3: (-1, 1), 4: (1, -1)}[e["s"]]          # quadrant of the single sight
+        qe, qn = {1: (1, 1), 2: (1, 1), 3: (-1, 1), 4: (1, -1), 5: (1, -1)}[e["s"]]          # quadrant of the single sight
         s.pts.append(dict(id="X", e=a["e"] + qe * 120.0, n=a["n"] + qn * 50.0, u=a["u"] + 3.0, role="unk", con=False, approx="given", pert=(0.0, 0.0, 0.0)))
         s.names["X"] = "X"
-        s.obs.append(dict(t="distance", fr=a["id"], to="X", to2="", k=len(s.obs), fdh=0.0, tdh=0.0, swap=False, passive=False))
+        if e["s"] == 5:          # the single determining element is an angle with X as its foresight
+            b = s.pts[1]
+            s.obs.append(dict(t="angle", fr=a["id"], to=b["id"], to2="X", k=len(s.obs), fdh=0.0, tdh=0.0, swap=False, passive=False))
+        else:
+            s.obs.append(dict(t="distance", fr=a["id"], to="X", to2="", k=len(s.obs), fdh=0.0, tdh=0.0, swap=False, passive=False))
         if e["s"] in (2, 4) and s.dim == 3:
             s.obs.append(dict(t="dh", fr=a["id"], to="X", to2="", k=len(s.obs), fdh=0.0, tdh=0.0, swap=False, passive=False))
     elif k == "Blunder":
